@@ -154,7 +154,7 @@ CHECKS = {
         text='Each generated sequence over priority/!del/!merge tags is rebuilt twice, with the last document repeated, with {} inserted at every '
              'position, with every mapping\'s keys permuted and with !unsafe/!new markers added on random nodes; plain(Builder.build()) must agree. '
              'One open known finding (list pre-filter, idempotence only) is attributed by a root-cause probe and reported as KNOWN-FINDING.',
-        note='Relations between runs of the implementation; two open known findings, both attributed only to idempotence failures: list-prefilter-partial-survivor (only in builds where the root-cause probe saw a partial list removal) and del-rewritten-key-order (only when the data are equal and just the key order differs after a repeated !del mapping).',
+        note='Relations between runs of the implementation; three open known findings: list-prefilter-partial-survivor (idempotence failures only, in builds where the root-cause probe saw a partial list removal), del-rewritten-key-order (idempotence failures only, when the data are equal and just the key order differs after a repeated !del mapping) and mapping-onto-pruned-list (key-permutation failures only, in builds where the probe saw a list index being clipped).',
         design='4/C15'),
 }
 
